@@ -75,7 +75,7 @@ namespace
     value select_config_scalar(runtime& runtime, value::cref left, value::cref right)
     {
         auto cd = left.data<d_config, config>();
-        auto index = right.data<d_scalar, int>();
+        auto index = d_scalar::saturate_cast<int>(right.data<d_scalar, float>());
 
         auto nav = cd.navigate(runtime.confighost());
         if (nav.empty())
